@@ -11,7 +11,8 @@ dst = root / "seeded" / name
 dst.mkdir(parents=True, exist_ok=True)
 for f in ("patch.diff", "demo.py", "notes.md"):
     if (Path(src) / f).exists():
-        shutil.copy(Path(src) / f, dst / f)
+        if (Path(src) / f).resolve() != (dst / f).resolve():
+            shutil.copy(Path(src) / f, dst / f)
 out = subprocess.run([str(root / "tools" / "seeded.sh"), str(dst), *checks], capture_output=True, text=True).stdout
 print(out)
 lines = out.splitlines()
